@@ -27,7 +27,7 @@ type Graph struct {
 type Fault struct {
 	Node  int    `json:"node"`
 	Field string `json:"field"`
-	// Kind: "err" plain error; "group" ggql.Errors with N members; "ext" *ggql.Error with extensions;
+	// Kind: "err" plain error; "group" ggql.Errors with N members; "wgroup" the same wrapped with %w; "ext" *ggql.Error with extensions;
 	// "nth" the Any-list accessor fails at element Index of the list held by (node, field).
 	Kind  string `json:"kind"`
 	N     int    `json:"n,omitempty"`
@@ -305,7 +305,7 @@ func (x *Exec) selSet(n *Node, sels []*Sel, out map[string]interface{}, path []i
 			}
 			if f, bad := x.faults[faultKey(n.ID, s.Name)]; bad && f.Kind != "nth" && (f.Call == 0 || f.Call == x.out.Calls[faultKey(n.ID, s.Name)]) {
 				cnt := 1
-				if f.Kind == "group" {
+				if f.Kind == "group" || f.Kind == "wgroup" {
 					cnt = f.N
 				}
 				for i := 0; i < cnt; i++ {
